@@ -302,7 +302,8 @@ def r18_5(ctx):
     cases = [([1, 12, 40], 10, [8]), ([0, 9], 10, [0, 9]), ([], 10, []), ([10], 10, [])]
     for absl, n, exp in cases:
         I = mk_interp(ctx, havoc_on_call=False)  # the per-object reversals it calls do not own the project's list
-        heap = {("self", "cost_list"): ListV([Poly.const(i) for i in range(n)], True, "list"), ("self", "absence_time_list"): ListV([Poly.const(a) for a in absl], True, "list")}
+        heap = {("self", "cost_list"): ListV([Poly.const(i) for i in range(n)], True, "list"), ("self", "absence_time_list"): ListV([Poly.const(a) for a in absl], True, "list"),
+                ("self", "time"): Poly.const(n)}   # (project.time equals the number of recorded steps: C08)
         outs = I.run_function(g, heap=heap)
         for st, ex in outs:
             v = st.heap.get(("self", "absence_time_list"))
@@ -319,3 +320,7 @@ def r18_5(ctx):
 def run(ctx):
     check(ctx)
     r18_5(ctx)
+    # after a reload the project's cost list is its own list again (not the organization's): the editors touch each list once
+    from .C16 import r16_1
+    from ..jsontab import JsonTables
+    r16_1(ctx, JsonTables(ctx))
